@@ -5,7 +5,7 @@
     (sk/ok: "I" IRI, "B" blank node, "L" literal).  *)
 From Coq Require Import List Ascii String ZArith NArith Bool.
 From Shexer Require Import Lib.PyStr Lib.Dict Gen.Consts Spec.Rdf Model.Table Model.Tracker Model.Profiler
-     Model.Tokens Model.Freq Model.FreqInst Model.Shexing Model.SerialShexc Model.Run.
+     Model.Tokens Model.Freq Model.FreqInst Model.Shexing Model.SerialShexc Model.Run Model.RunCur.
 Import ListNotations.
 
 Definition tag_is (r : list str) (t : string) : bool := str_eqb (fld r 0) (Str t).
@@ -51,8 +51,11 @@ Definition rerr_str (e : rerr) : str :=
   | REZeroDiv => Str "ZeroDivisionError" | RERandom => Str "random-prefix"
   end.
 
+(** the one-document run with the shexing stage in the order the code has
+    ([RunCur.run_shexc_cur]; it is [Run.run_shexc] where Props/ShexStage.v:
+    [E2E_class_mode_order_irrelevant_shexc] applies) *)
 Definition pipe_shexc (t : table) : table :=
-  match run_shexc BAlg (rcfg_of t) (thr_of t) (graph_of t) with
+  match run_shexc_cur BAlg (rcfg_of t) (thr_of t) (graph_of t) with
   | inl text => [[Str "ok"; text]]
   | inr e => [[Str "err"; rerr_str e]]
   end.
